@@ -3,6 +3,10 @@ Driver for the static-state model (suite `static`).  Glue only.
   new <d>                 start a new static pattern with element duration d (rational n/d)
   read <t>                one read at time t (rational): prints the element index returned
   rewind                  Pattern.reset reaches the static pattern (a constructor built around it, …)
+  gnew                    an empty Globals
+  gset <name> s:<tok>     Globals.set(name, scalar)            (tokens are opaque: the harness writes repr-like words)
+  gset <name> q:<t,t,…>   Globals.set(name, PSequence([…]))
+  gget <name>             next(PGlobals(name, default)): prints the token read, or `default`
 -/
 import IsobarV.Static.Model
 import IsobarV.Util.Parse
@@ -19,6 +23,7 @@ def parseRat (s : String) : Rat :=
 structure DSt where
   d : Rat := 1
   s : St := {}
+  g : GEnv := []
   deriving Inhabited
 
 def handle (x : DSt) (line : String) : IO DSt := do
@@ -28,6 +33,15 @@ def handle (x : DSt) (line : String) : IO DSt := do
     let s' := x.s.read (parseRat t) x.d
     IO.println (toString s'.held)
     return { x with s := s' }
+  | ["gnew"] => IO.println "ok"; return { x with g := [] }
+  | ["gset", k, v] =>
+    let gv : GVal := if v.startsWith "q:" then .seq ((v.drop 2).toString.splitOn ",") 0 else .scalar (v.drop 2).toString
+    IO.println "ok"
+    return { x with g := x.g.set k gv }
+  | ["gget", k] =>
+    let r := x.g.read k
+    IO.println (r.1.getD "default")
+    return { x with g := r.2 }
   | ["rewind"] => IO.println "ok"; return { x with s := x.s.rewind }
   | [] => return x
   | _ => IO.println "bad-line"; return x
